@@ -770,6 +770,45 @@ namespace
         }
     };
 
+    // ---------- "type neighbours": the same node shapes over types that differ in ONE parameter (window period /
+    // warm-up, list size).  Process-wide type interning must keep them apart whichever was realised first. ----------
+    template <int P, int M>
+    struct VWPush
+    {
+        static constexpr auto name = "v_wpush";
+        static void           eval(In<"x", TS<Int>> x, Out<TSW<Int, P, M>> out) { out.push(x.value()); }
+    };
+    template <int P, int M>
+    struct VWTotal   // publishes only once the window is warm (all-valid)
+    {
+        static constexpr auto name = "v_wtotal";
+        static void eval(Scalar<"id", Int> id, In<"w", TSW<Int, P, M>, InputValidity::AllValid> w, NodeView self, DateTime now, Out<TS<Int>> out)
+        {
+            FnLog log(id.value(), self, now);
+            long  total = 0;
+            for (std::size_t i = 0; i < w.size(); ++i) { total += static_cast<long>(w[i]); }
+            log.ins({"{\"v\":" + std::to_string(static_cast<long>(w.size())) + ",\"m\":1,\"ok\":1}"});
+            out.set(Int{total});
+            log.out(total).emit();
+        }
+    };
+    using L3 = TSL<TS<Int>, 3>;
+    struct VLSum3
+    {
+        static constexpr auto name = "v_lsum3";
+        static void eval(Scalar<"id", Int> id, In<"xs", L3, InputValidity::AllValid> xs, NodeView self, DateTime now, Out<TS<Int>> out)
+        {
+            FnLog log(id.value(), self, now);
+            auto  a = xs[0];
+            auto  b = xs[1];
+            auto  c = xs[2];
+            log.ins({in_rec(a), in_rec(b), in_rec(c)});
+            const long v = static_cast<long>(a.value()) + static_cast<long>(b.value()) + static_cast<long>(c.value());
+            out.set(Int{v});
+            log.out(v).emit();
+        }
+    };
+
     // one node, one list output, two independently ticking elements (references to positions of the same output)
     struct VPack2
     {
@@ -989,6 +1028,19 @@ namespace
             else if (kind == "sum2") { env.ports.emplace(id, wire<VSum2>(w, sid, in.at(0), in.at(1))); }
             else if (kind == "lsum") { env.ports.emplace(id, wire<VLSum>(w, sid, {in.at(0).erased(), in.at(1).erased()})); }
             else if (kind == "lsumv") { env.ports.emplace(id, wire<VLSumV>(w, sid, {in.at(0).erased(), in.at(1).erased()})); }
+            else if (kind == "lsum3") { env.ports.emplace(id, wire<VLSum3>(w, sid, {in.at(0).erased(), in.at(1).erased(), in.at(2).erased()})); }
+            else if (kind == "wsum")
+            {
+                // p=<period> m=<warm-up>: push into a tick window, total of the warm window
+                const long pp = l.geti("p", 3), mm = l.geti("m", 1);
+                auto       mk = [&]<int PP, int MM>() { env.ports.emplace(id, wire<VWTotal<PP, MM>>(w, sid, wire<VWPush<PP, MM>>(w, in.at(0)))); };
+                if (pp == 3 && mm == 1) { mk.template operator()<3, 1>(); }
+                else if (pp == 3 && mm == 3) { mk.template operator()<3, 3>(); }
+                else if (pp == 3 && mm == 2) { mk.template operator()<3, 2>(); }
+                else if (pp == 2 && mm == 1) { mk.template operator()<2, 1>(); }
+                else if (pp == 2 && mm == 2) { mk.template operator()<2, 2>(); }
+                else { throw std::logic_error("hgv: unsupported window"); }
+            }
             else if (kind == "sum3") { env.ports.emplace(id, wire<VSum3>(w, sid, in.at(0), in.at(1), in.at(2))); }
             else if (kind == "sumu") { env.ports.emplace(id, wire<VSumU>(w, sid, in.at(0), in.at(1))); }
             else if (kind == "sample") { env.ports.emplace(id, wire<VSample>(w, sid, in.at(0), in.at(1))); }
@@ -1333,6 +1385,36 @@ namespace
     }
 
     // make an executor from (a copy of) the builder and run it on the calling thread
+    // called with the root graph after the run returned (or failed), before the executor is released
+    thread_local std::function<void(const GraphView &)> g_after_run;
+
+    // what the run recorded under the keys of its `grec` statements (the in-memory recorder's buffers)
+    void dump_recorded(Scenario &scn, const GraphView &graph)
+    {
+        for (auto &[id, sp] : scn.nodes)
+        {
+            if (sp.kind != "grec") { continue; }
+            const std::string key = sp.line.gets("key", "r");
+            std::string       vs  = "[";
+            try
+            {
+                bool first = true;
+                for (const auto &v : testing::get_recorded_values<Int>(graph.global_state(), key))
+                {
+                    if (!first) { vs += ","; }
+                    first = false;
+                    vs += v ? std::to_string(static_cast<long>(*v)) : std::string{"null"};
+                }
+                vs += "]";
+            }
+            catch (const std::exception &e)
+            {
+                vs = "\"unreadable\"";
+            }
+            J("recbuf").i("id", id).str("key", key).raw("vals", vs).emit();
+        }
+    }
+
     void execute_builder(Scenario &scn, const GraphBuilder &gb, GraphExecutorPhaseRunner runner = {})
     {
         g_scn = &scn;
@@ -1356,6 +1438,15 @@ namespace
             catch (...)
             {
                 J("ret").i("ok", 0).str("msg", "unknown").emit();
+            }
+            try
+            {
+                dump_recorded(scn, ex.view().graph());
+                if (g_after_run) { g_after_run(ex.view().graph()); }
+            }
+            catch (const std::exception &e)
+            {
+                J("harnessfail").str("msg", std::string{"after run: "} + e.what()).emit();
             }
         }
         J("released").emit();
